@@ -174,6 +174,9 @@ fn main() {
         "explore" => explore(&args),
         "kernels" => props::c11::run(&args),
         "bq" => props::c12::run(&args),
+        "snap" => props::c08::run(&args),
+        "crash-child" => props::c09::child(&args),
+        "crash-verify" => props::c09::verify(&args),
         "faults" => props::c10::run(&args),
         "ids" => props::c13::run(&args),
         other => {
